@@ -216,6 +216,33 @@ func init() {
 		},
 	})
 	register(&PropSpec{
+		ID: "C15",
+		Explanation: "Decided for the schema-mode code of every ValidateCompatibility: R-KINDGATE - every `return nil` is dominated by a gate that separates the receiver's kind " +
+			"from all others (TypeID comparison, assertion to a concrete schema type, kind whitelist, conversion helper, or a reflective field probe whose embedders all report " +
+			"one TypeID) or lies in data mode; R-OVERLAP - the range comparisons are in normal form (reject iff other.min > self.max or other.max < self.min) and, by " +
+			"enumeration of all acyclic paths from the point where both schemas' bounds are available, every accepting path has decided both bound pairs (nil bound or " +
+			"comparison with the accepting outcome) - for all combinations of present/absent bounds; R-MUSTUSE - every kind with min/max consults them in schema mode (the " +
+			"list kind does not: known finding); R-NILGUARD - optional bounds are dereferenced only under their own nil guard; R-MAPORDER - the verdict does not depend on " +
+			"map iteration order. NOT decided: termination on recursive schemas (R-TERM, see DESIGN), reflexivity as a value-level statement, completeness of the catalogue " +
+			"of rejections beyond kind, bounds and the loops' verdict classes.",
+		Assumptions: []string{wellFormed},
+		Rules: []func(*Ctx){
+			func(c *Ctx) { c.ruleOverlap("R-OVERLAP") },
+			func(c *Ctx) { c.ruleKindGate("R-KINDGATE") },
+			func(c *Ctx) { c.ruleBoundsConsulted("R-MUSTUSE") },
+			func(c *Ctx) {
+				fns := map[*ssa.Function]bool{}
+				for _, f := range c.compatFuncs() {
+					fns[f] = true
+				}
+				c.ruleNilGuard("R-NILGUARD", fns)
+				c.R.Floor("R-NILGUARD", 12)
+				c.ruleMapOrder("R-MAPORDER", c.M, fns)
+				c.R.Floor("R-MAPORDER", 6)
+			},
+		},
+	})
+	register(&PropSpec{
 		ID: "C16",
 		Explanation: "Decided: R-SIBLING - in each of the four UnitsDefinition.Format* functions the amount handed to the per-unit formatter inside the multiplier loop is the " +
 			"math.Floor quotient, never the loop-carried remainder; R-TRIM - digits are trimmed only from renderings known to contain a decimal point, with a cutset that does " +
